@@ -302,10 +302,10 @@ def print : Component → List Char
   | [] => []
   | i :: r => i.chars ++ print r
 
-/-- coefficient of axis `a`: the sign of its term, 0 if there is none -/
+/-- coefficient of axis `a`: the sum of the signs of its terms (0 if there is none) -/
 def coef (a : Axis) : Component → Int
   | [] => 0
-  | .term s b :: r => if b = a then s.toInt else coef a r
+  | .term s b :: r => (if b = a then s.toInt else 0) + coef a r
   | .num _ _ :: r => coef a r
 
 /-- sum of the signed translations -/
@@ -314,7 +314,7 @@ def transOf : Component → Rat
   | .term _ _ :: r => transOf r
   | .num s v :: r => (s.toInt : Rat) * v.value + transOf r
 
-/-- what a component denotes: one row of the rotation matrix and one translation -/
+/-- what a component denotes — the sum of what its items denote: one row of the rotation matrix and one translation -/
 def denote (c : Component) : Coef × Rat := ((coef .x c, coef .y c, coef .z c), transOf c)
 
 def axisCount (a : Axis) : Component → Nat
